@@ -168,8 +168,15 @@ fn ctl(master: u64, runs: u64, replay_dir: &str) -> Json {
     rlib_treap::verif::set_priority_source(Some(hook_source));
     let mut vio = Vec::new();
     for (class, (idx, rec, v)) in m.violations.iter().take(10) {
-        let (min_rec, evals) = minimise(rec, class, 20_000);
-        let fv = exec(&min_rec, false).violation.unwrap_or_else(|| v.clone());
+        let (mut min_rec, evals) = minimise(rec, class, 20_000);
+        let fv = match exec(&min_rec, false).violation {
+            Some(fv) => fv,
+            None => {
+                // never pair a violation with a record that does not show it
+                min_rec = rec.clone();
+                v.clone()
+            }
+        };
         let prop = fv.property();
         let path = format!("{}/{}-ctl-{}-{}.json", replay_dir, prop, master, idx);
         let file = Json::obj()
